@@ -15,6 +15,8 @@ CLAIMED = {
          'Static: every soundness-critical check of fri::verifier and batch_fri::verifier exists, propagates its error, depends on the proof/challenge data it must depend on, ranges over the whole sequence, and no checking loop can be truncated by an unpinned zip partner. Necessary conditions of C05; sufficiency of the checks (algebra) is not decided.', '5/C05'),
  'C06': ('twin obligation tables (native check <-> in-circuit assertion sink with corresponding sources), transcript alignment, field-coverage of witness-assignment routines, opening-order comparison',
          'Static: every native PLONK/FRI/Merkle check has an unconditional in-circuit twin fed by the corresponding targets (incl. the variable-degree FRI variant); the in-circuit transcript aligns with the native one; set_proof_with_pis_target/set_verifier_data_target write every target field from the same-named value field; native and target opening sets are flattened in the same order. Equality of the accepted sets is not decided.', '5/C06'),
+ 'C07': ('per-gate accessor data-flow (typed HIR with gate-local inlining): generator-used wire accessors must reach emitted constraints in each evaluator; cross-evaluator set agreement; branch-balanced counter lint',
+         'Static: for all 16 gates, every wire accessor read or written by the gate\'s generators flows into a constraint emitted by each of its evaluators (extension, base/packed, circuit); the evaluators constrain the same accessor set; if/else arms advance the same counters. That the constraints determine the outputs, evaluator value-equality and degrees are not decided.', '5/C07'),
  'C17': ('grammar extraction of reader/writer pairs from typed HIR (helpers expanded to byte-level primitives), field-order tracing through result literals/constructors, field coverage, registry comparison',
          'Static: all 58 read_*/write_* pairs and 41 serialize/deserialize pairs consume/emit the same primitive grammar; the k-th written item comes from the field the k-th read item ends in; every field of a serialised struct is written (or is reconstructed, reviewed); gate/generator registries enumerate every impl, in the same order on both sides, with distinct ids. Value round-trip and interchangeability of restored circuits are not decided.', '5/C17'),
  'C18': ('interprocedural taint over typed HIR (validators/decoders panic census), type-driven length-pin coverage, validate-before-use ordering',
